@@ -272,6 +272,14 @@ def make_proc(pid, spec, stdin_fn=None):
 def _body(p):
     """runs inside the swapped-in context; returns nothing, fills p.exit"""
     main = MAINS[os.path.basename(p.argv[0])]
+    # a real command starts with an (almost) empty stack and the interpreter's default recursion limit; the simulator's
+    # own frames below this point must not count against it, nor may the workers' raised limit hide a RecursionError
+    depth, f = 0, sys._getframe()
+    while f is not None:
+        depth += 1
+        f = f.f_back
+    old_limit = sys.getrecursionlimit()
+    sys.setrecursionlimit(depth + 1000)
     try:
         rc = main()
         p.exit = 0 if rc is None else rc
@@ -291,6 +299,9 @@ def _body(p):
         p.exc = e
         # extracted later, outside the simulation (linecache reads source files)
         p.exc_tb_raw = e.__traceback__
+    finally:
+        # (concurrent simulated processes may have read each other's lowered limit as 'old': never end below the harness's own)
+        sys.setrecursionlimit(max(old_limit, 5000))
     if not isinstance(p.exit, int):
         p.exit = 1
 
